@@ -237,9 +237,9 @@ func runGroup(c *kit.Ctx, r *kit.Rand) {
 
 func main() {
 	c := kit.Parse("C02", os.Args[1:])
-	nGroup, nSolve := 1200, 700
+	nGroup, nSolve := 700, 350
 	if c.Thorough() {
-		nGroup, nSolve = 12000, 7000
+		nGroup, nSolve = 8000, 4000
 	}
 	dbg := os.Getenv("C02_DEBUG") // case id to run alone with a dump (development aid)
 	for i := 0; i < nGroup; i++ {
@@ -265,5 +265,5 @@ func main() {
 		"Scheduler.Solve final placements satisfy Spec.interpod_ok_b",
 	}
 	c.Meta.Exhaustive = false
-	c.Finish("From KV Require Import Base.Req C02.Model C02.Spec C02.Check.", "case", "check_all", 400)
+	c.Finish("From KV Require Import Base.Req C02.Model C02.Spec C02.Check.", "case", "check_all", 300)
 }
